@@ -10,7 +10,7 @@ From GL Require Import Base.Bytes Base.Order Base.OrderProofs Codec.IKey Codec.I
   Lsm.IterPathProofs Lsm.IterPathAbs.
 From GL Require Mem.MemDB.
 From GL Require Import Iter.Cursor Iter.CursorProofs Iter.Merged Iter.MergedProofs Iter.Indexed Iter.IndexedProofs
-  Iter.DBIter Iter.LiveProofs Iter.DBIterProofs Iter.StackProofs Iter.DBIterCong Iter.InvertedProofs Iter.IterErr Iter.IterErrProofs
+  Iter.DBIter Iter.LiveProofs Iter.DBIterProofs Iter.StackProofs Iter.DBIterCong Iter.InvertedProofs Iter.IterErr Iter.IterErrProofs Iter.DBIterErrProofs
   Gen.ConstsOkC02 Corr.Cmps.
 Close Scope N_scope.
 
@@ -359,13 +359,31 @@ Theorem C02_dbiter_false_records_error : forall c p (C : Type) chstep chobs cher
 Proof. exact de_false_records_error. Qed.
 Print Assumptions C02_dbiter_false_records_error.
 
-(* 10f. REFUTED for dbIter: "an iterator whose child reports an error never yields a pair not in the view".
-        dbIter.prev() breaks out of its loop when i.iter.Prev() returns false and, if it has saved a pair
-        (del == false), returns TRUE without looking at i.iter.Error().  When the raw iterator fails between
-        two versions of one user key, the saved pair is the OLDER version: Last() below returns (k, "o")
-        although the live pair is (k, "n"), Error() is nil; the error surfaces one call later.  (Observed on
-        the implementation: findings/C02_dbiter_prev_stale_on_error.json; known finding
-        dbiter-prev-stale-on-raw-error.)  The same with a deletion marker on top resurrects a deleted key. *)
+(* 10f. dbIter over a raw iterator that behaves like a cursor until it FAILS (a fuse: its n-th call returns
+        false with an error - of any kind: dbIter records every error of its raw iterator - and it stays
+        failed): for EVERY call sequence, forward, backward and mixed, there is a call number j such that the
+        first j outputs are exactly those of the cursor over the live pairs, with no error recorded, and from
+        call j on the outputs are (false, nil, nil), not valid, with an error recorded.  It stops, and it never
+        shows a pair that is not the live pair of its key.  (True of the code since 35e2053; FULL.) *)
+Theorem C02_dbiter_error_prefix : forall (c : comparer) (p : kparams) (C : Type) (chstep : C -> move ikey -> C)
+  (chobs : C -> option entry) (seq : N) (strict : bool) (l : list entry) (fuel : nat) (raw : fchild C),
+  comparer_ok c -> dbparams_ok p -> (seq <= keyMaxSeq p)%N ->
+  sorted_kv (icmp c) l -> Forall (entry_wf p) l -> length l < fuel ->
+  refines (icmp c) chstep chobs (fc_in raw) l -> fc_dead raw = false ->
+  forall ms, exists eouts j e,
+    de_run c p (fchild C) (f_step chstep) (f_obs chobs) f_err seq strict fuel (de_init raw) (map CMove ms) = Some eouts /\
+    degraded bytes bytes (length ms) (run_cursor (cmp c) (live_pairs c p seq l) ms) eouts j e.
+Proof. exact dbiter_error_prefix. Qed.
+Print Assumptions C02_dbiter_error_prefix.
+
+(* 10g. WITNESS OF THE PRE-FIX BEHAVIOUR (defect repaired by 35e2053; de_run_old = the code before it, kept
+        for this witness only).  dbIter.prev() used to leave its loop when i.iter.Prev() returned false and,
+        having saved a pair (del == false), return TRUE without consulting i.iter.Error(): when the raw
+        iterator failed between two versions of one user key the saved pair was the OLDER version - Last()
+        returned (k, "o") although the live pair is (k, "n"), Error() nil, the error surfacing one call later;
+        with a deletion marker on top a deleted key was resurrected.  The repaired code, on the same inputs,
+        returns false and records the error at once.  (Regression inputs: findings/C02_dbiter_prev_stale_on_error.json,
+        findings/C02_dbiter_prev_stale_db_level.json.) *)
 Definition stale_entries : list entry :=
   [ ({| uk := [107]%N; num := pack 5%N 1%N |}, [110]%N);       (* k@5 = "n" *)
     ({| uk := [107]%N; num := pack 3%N 1%N |}, [111]%N) ].     (* k@3 = "o" *)
@@ -373,17 +391,25 @@ Definition stale_deleted : list entry :=
   [ ({| uk := [107]%N; num := pack 5%N 0%N |}, []);            (* k@5 deleted *)
     ({| uk := [107]%N; num := pack 3%N 1%N |}, [111]%N) ].
 (* a raw iterator whose second call fails with a non-corruption error *)
+Definition stale_raw (l : list entry) : destate (fchild (list entry * pos)) := de_init (mkFC (l, SOI) (Some 1) EOther false).
+Definition stale_run_old (l : list entry) (cs : list (ecall bytes)) :=
+  de_run_old bytewise kp _ (f_step (cur_step (icmp bytewise))) (f_obs cur_obs) f_err 10%N true 5 (stale_raw l) cs.
 Definition stale_run (l : list entry) (cs : list (ecall bytes)) :=
-  de_run bytewise kp _ (f_step (cur_step (icmp bytewise))) (f_obs cur_obs) f_err 10%N true 5
-         (de_init (mkFC (l, SOI) (Some 1) EOther false)) cs.
+  de_run bytewise kp _ (f_step (cur_step (icmp bytewise))) (f_obs cur_obs) f_err 10%N true 5 (stale_raw l) cs.
 
 Theorem C02_dbiter_prev_error_yields_stale_refuted :
   live_pairs bytewise kp 10%N stale_entries = [([107]%N, [110]%N)] /\
-  stale_run stale_entries [CMove MLast; CMove MPrev] =
-    Some [mkEO true (Some ([107]%N, [111]%N)) true None; mkEO false None false (Some EOther)] /\
   live_pairs bytewise kp 10%N stale_deleted = [] /\
+  (* before the repair *)
+  stale_run_old stale_entries [CMove MLast; CMove MPrev] =
+    Some [mkEO true (Some ([107]%N, [111]%N)) true None; mkEO false None false (Some EOther)] /\
+  stale_run_old stale_deleted [CMove MLast; CMove MNext] =
+    Some [mkEO true (Some ([107]%N, [111]%N)) true None; mkEO false None false (Some EOther)] /\
+  (* the repaired code on the same inputs *)
+  stale_run stale_entries [CMove MLast; CMove MPrev] =
+    Some [mkEO false None false (Some EOther); mkEO false None false (Some EOther)] /\
   stale_run stale_deleted [CMove MLast; CMove MNext] =
-    Some [mkEO true (Some ([107]%N, [111]%N)) true None; mkEO false None false (Some EOther)].
+    Some [mkEO false None false (Some EOther); mkEO false None false (Some EOther)].
 Proof. repeat split; vm_compute; reflexivity. Qed.
 Print Assumptions C02_dbiter_prev_error_yields_stale_refuted.
 
